@@ -9,11 +9,13 @@ use refmodel::secp::Curve;
 use serde_json::json;
 
 const P: &str = "C14";
-const ROOTS: [&str; 7] = ["m/", "m", "", "M/", "/", "0/", " m/"];
+const ROOTS: [&str; 9] = ["m/", "m", "", "M/", "/", "0/", " m/", "\u{ff4d}/", "m\u{ff0f}"];
 fn tokens() -> Vec<String> {
     let mut t = Vec::new();
     for v in ["0", "1", "44", "60", "2147483647", "2147483648", "2147483649", "4294967295", "4294967296", "18446744073709551616"] { t.push(v.to_string()); t.push(format!("{v}'")); }
     for v in ["", "-1", "1.5", "x", "0''", "'", "0x10", "+1", "01", " 1", "1 ", "0h", "0H"] { t.push(v.to_string()); }
+    // compatibility / other-script digits and apostrophes that text normalisation would fold onto path syntax
+    for v in ["\u{b2}", "\u{2082}", "\u{2460}", "\u{ff14}\u{ff14}'", "\u{663}", "4\u{b2}", "0\u{2019}", "0\u{ff07}", "\u{1d7d0}"] { t.push(v.to_string()); }
     t
 }
 pub struct Space { depth: usize, toks: Vec<String>, seed: Vec<u8>, curve: Curve, label: &'static str }
